@@ -1,7 +1,7 @@
 (** C15 — the description formatter only inserts whitespace and is total.
     Only statements, each closed by [exact]; proofs live in Proofs/. *)
 From Coq Require Import List NArith ZArith.
-From V Require Import Model.Format Proofs.FormatProofs.
+From V Require Import Base.Util Model.Format Model.FormatSpec Proofs.FormatProofs Proofs.FormatDiscipline.
 Import ListNotations.
 
 (** Totality: [format_with] is a Gallina function (structural recursion on
@@ -31,3 +31,133 @@ Theorem C15_no_overflow :
     (Z.abs (indent (run_n O decide n init_fstate o input)) <= Z.of_nat (length input))%Z.
 Proof. exact indent_bounded. Qed.
 Print Assumptions C15_no_overflow.
+
+(** ** second sentence of C15: the indentation discipline.
+
+    Hypotheses: [nestedb input] (one grammar over the three bracket kinds,
+    every scope closed, Model/FormatSpec.v) and [ws_free input] (no space, no
+    line break: every line break of the output is an inserted one).  All
+    statements hold for EVERY decision oracle [decide] (any state type [O]),
+    not only for the implementation's 32-character look-ahead [decide_impl]:
+    no side condition on the oracle is needed. *)
+
+(** The invariant behind the discipline.  After any number [n] of characters
+    of a properly nested input, [bs] being the stack of scopes open at that
+    point ([stack_after], the stack [nestedb] itself keeps): the tuple stack has
+    one entry per open '(' and the angle stack one per open '<', and
+
+      indent = #open braces + #open Big tuple scopes + #open Big angle scopes,
+
+    in particular it is never negative; at the end of the input the indent is
+    0 and both scope stacks are empty. *)
+Theorem C15_indent_invariant :
+  forall (O : Type) (decide : O -> N -> N -> list N -> bool * O) (o : O) (input : list N),
+    nestedb input = true ->
+    (forall n : nat, exists bs : list bkind,
+        stack_after [] (firstn n input) = Some bs /\
+        let st := run_n O decide n init_fstate o input in
+        List.length (tuples st) = count_kind KParen bs /\
+        List.length (angles st) = count_kind KAngle bs /\
+        indent st = Z.of_nat (count_kind KBrace bs + count_big (tuples st) + count_big (angles st)) /\
+        (0 <= indent st)%Z) /\
+    (let st := final_state O decide init_fstate o input in
+     indent st = 0%Z /\ tuples st = [] /\ angles st = []).
+Proof. exact indent_invariant. Qed.
+Print Assumptions C15_indent_invariant.
+
+(** The discipline itself, read off the OUTPUT alone by the independent reader
+    [disciplineb] (Model/FormatSpec.v, it does not see the input, the state or
+    the decisions).  The reader keeps the stack of scopes open in the output,
+    each with a flag "broken over several lines": a brace scope always is, a
+    paren / angle scope is iff its opener is directly followed by a line break
+    (by [C15_broken_iff_big] below: iff the oracle answered Big).  With
+    depth = number of open broken scopes, [disciplineb out = true] says:
+      - every line break is followed by EXACTLY [4 * depth] spaces and then a
+        non-space or the end of the text, with the two documented exceptions
+      - if the next character is a closing bracket and the innermost open scope
+        is broken: exactly [4 * (depth - 1)] spaces, i.e. the closer stands at
+        its opener's depth (the reader then checks that this closer closes
+        that innermost scope);
+      - if the next character is '{': exactly [4 * depth + 1] spaces (the brace
+        keeps its one separating space);
+      - every closer matches the innermost open scope and the text ends with
+        no scope open, i.e. at depth zero. *)
+Theorem C15_indent_discipline :
+  forall (O : Type) (decide : O -> N -> N -> list N -> bool * O) (o : O) (input : list N),
+    nestedb input = true -> ws_free input = true ->
+    disciplineb (format_with O decide o input) = true.
+Proof. exact format_with_discipline. Qed.
+Print Assumptions C15_indent_discipline.
+
+Theorem C15_impl_indent_discipline :
+  forall input, nestedb input = true -> ws_free input = true ->
+    disciplineb (format_impl input) = true.
+Proof. intro; apply format_with_discipline. Qed.
+Print Assumptions C15_impl_indent_discipline.
+
+(** The reader's flag is the formatter's decision: listing, for every '(' / '<'
+    in order, "directly followed by a line break in the output" ([read_broken])
+    gives exactly the oracle's answers "big" ([big_decisions]).  So "broken"
+    in [disciplineb] means: brace, or paren / angle scope decided Big. *)
+Theorem C15_broken_iff_big :
+  forall (O : Type) (decide : O -> N -> N -> list N -> bool * O) (o : O) (input : list N),
+    nestedb input = true -> ws_free input = true ->
+    read_broken (format_with O decide o input) = big_decisions O decide o input.
+Proof. exact broken_iff_big. Qed.
+Print Assumptions C15_broken_iff_big.
+
+(** The implementation's oracle.  [decide_impl] answers "small" exactly when
+    the text after the opener is [pre ++ close :: post] with [pre] shorter than
+    32 characters and free of '{', and [close] the closer matching the opener
+    (balance 1 + #open - #close positive on every prefix of [pre], 1 after
+    [pre]) ([small_split], Model/FormatSpec.v). *)
+Theorem C15_decide_impl_small :
+  forall (u : unit) (open close : N) (rest : list N),
+    close <> open ->
+    (fst (decide_impl u open close rest) = true <->
+     exists pre post : list N,
+       (List.length pre < small_scope_max_tokens)%nat /\ small_split open close 1 rest pre post).
+Proof. exact decide_impl_small_iff. Qed.
+Print Assumptions C15_decide_impl_small.
+
+(** The hypotheses are satisfiable on a non-trivial input (Big angle scope
+    holding a Small tuple scope and a brace scope; 4 inserted line breaks). *)
+From Coq Require Import String.
+Example C15_discipline_witness :
+  let input := utf8_decode "a<b,(c,d){e,f}>"%string in
+  nestedb input = true /\ ws_free input = true /\
+  format_impl input = utf8_decode "a<
+    b,
+    (c, d) {
+        e,
+        f
+    }
+>"%string /\
+  disciplineb (format_impl input) = true /\
+  read_broken (format_impl input) = [true; false].
+Proof. vm_compute. repeat split. Qed.
+
+(** The reader is not vacuous: it rejects an indentation of two spaces, a
+    closer left at the inner depth, a brace without its separating space, and
+    an unclosed scope; it accepts the formatter's layout of the same texts. *)
+Example C15_reader_rejects :
+  map (fun s => disciplineb (utf8_decode s))
+    [" {
+    a
+}"; " {
+  a
+}"; " {
+    a
+    }"; "(
+    a,
+    {
+        x
+    }
+)"; "(
+    a,
+     {
+        x
+    }
+)"; "(a"]%string
+  = [true; false; false; false; true; false].
+Proof. vm_compute. reflexivity. Qed.
